@@ -47,6 +47,9 @@ func logVal(eon int64, id int, blk uint64, dec string) logSpec {
 	return logSpec{Eon: eon, Id: id, Blk: blk, Val: hexInt(dec)}
 }
 
+// u2i is the cast the registry syncer applies to the contract's uint64 release time.
+func u2i(x uint64) int64 { return int64(x) }
+
 func opFire(eon int64, id int, blk int64) opSpec {
 	return opSpec{K: "fire", Eon: eon, Id: id, Blk: blk}
 }
@@ -273,6 +276,23 @@ func forcedCases() []histCase {
 	add("multi-set-failed-success-not-member", true, true, multiSetOps([]int64{1, 2, 3}, []string{"failed", "success", "not-member"}, 1))
 	add("multi-set-running-not-member-success", true, true, multiSetOps([]int64{1, 2, 3}, []string{"running", "not-member", "success"}, 2))
 	add("multi-set-success-failed-success", true, true, multiSetOps([]int64{3, 1, 2}, []string{"success", "failed", "success"}, 3))
+	// release times >= 2^63 (the contract's uint64, stored as int64(release time), i.e. negative):
+	// never due, in particular not at the first block after a start or a restart
+	add("release-time-beyond-int63", true, true, goodSet(), []opSpec{
+		opRegTime(1, 1, 11, u2i(9223372036854775807), 90),  // 2^63-1: the greatest non-negative
+		opRegTime(2, 1, 12, u2i(9223372036854775808), 90),  // 2^63   = MinInt64
+		opRegTime(3, 1, 13, u2i(9223372036854775809), 90),  // 2^63+1
+		opRegTime(4, 1, 14, u2i(18446744073709551614), 90), // 2^64-2 = -2
+		opRegTime(5, 1, 15, u2i(18446744073709551615), 90), // 2^64-1 = -1 ("never")
+		opRegTime(6, 1, 16, 990, 90), opRegTime(7, 1, 17, 1005, 90),
+		opBlock(100, 1000),                                  // the first block after the start
+		opBlock(101, 1001), opRestart(), opBlock(102, 1002), // the first block after a restart
+		opRegTime(8, 1, 18, u2i(18446744073709551615), 95), opBlock(103, 1010), opRestart(), opRestart(), opBlock(104, 1011),
+		opReleased(1, 16), opRestart(), opBlock(105, 1012),
+	})
+	add("release-time-beyond-int63-first-block-only", false, true, goodSet(), []opSpec{
+		opRegTime(1, 1, 11, u2i(18446744073709551615), 90), opRegTime(2, 1, 12, u2i(9223372036854775808), 90), opBlock(100, 1000),
+	})
 	// two keyper sets with one activation block: the handler selects the eon by block number
 	add("equal-activation-other-set-expired", true, true,
 		[]opSpec{opConfig(1, 100, 0, 1), opEon(1, 10, 100, 1), opDkg(1, true, true), opConfig(2, 100, 0, 2), opEon(2, 11, 100, 2), opDkg(2, true, true),
@@ -528,6 +548,9 @@ func (g *genState) regTime() {
 		id = g.r.Intn(6) // ... except for a few short identities (which may collide)
 	}
 	ts := int64(g.time) + int64(g.r.Intn(6)) - 1
+	if g.r.Chance(1, 10) { // a release time around 2^63 / 2^64, stored with the syncer's cast
+		ts = u2i(vh.Pick[uint64](g.r, 9223372036854775807, 9223372036854775808, 9223372036854775809, 18446744073709551614, 18446744073709551615))
+	}
 	blk := int64(g.number) - int64(g.r.Intn(4))
 	if blk < 0 {
 		blk = 0
